@@ -108,7 +108,7 @@ func resetTerms() {
 
 type options struct {
 	loopBound, depthMax, qTimeout, encTimeout, pruneMs, workers, maxTerms, validate int
-	solver, keep, traceQ                                                          string
+	solver, keep, traceQ, mapOrder                                                string
 	cross, prof, decide                                                           bool
 	seed                                                                          int64
 }
@@ -140,6 +140,7 @@ func main() {
 	fs.StringVar(&op.keep, "keep", "", "directory to keep SMT files in")
 	fs.StringVar(&op.traceQ, "trace", "", "print the block trace of the model of the sat query with this label")
 	fs.BoolVar(&op.decide, "decide", false, "ask the pruning solver at every symbolic branch whether it is decided")
+	fs.StringVar(&op.mapOrder, "maporder", "symbolic", "symbolic: every range over a map visits the keys in a solver-chosen order; fixed: insertion order")
 	fs.BoolVar(&op.prof, "profile", false, "print per-function term/time profile of the encoding")
 	consts := constFlags{}
 	fs.Var(consts, "const", "harness constant name=value (repeatable)")
@@ -264,7 +265,7 @@ func runCube(prog *ssa.Program, pkg *ssa.Package, fn *ssa.Function, modPath stri
 		infos: infos, globals: map[*ssa.Global]*Obj{},
 		sizes: &types.StdSizes{WordSize: 8, MaxAlign: 8}, fnsSeen: fnsSeen, consts: consts,
 		ndCount: map[string]int{}, stubsUsed: stubs, inexact: map[string]int{},
-		decideBranches: op.decide, maxTerms: op.maxTerms, trace: op.traceQ != "", pruneMs: op.pruneMs,
+		decideBranches: op.decide, fixedOrder: op.mapOrder == "fixed", maxTerms: op.maxTerms, trace: op.traceQ != "", pruneMs: op.pruneMs,
 		deadline: time.Now().Add(time.Duration(op.encTimeout) * time.Second)}
 	if op.prof {
 		ex.profile = map[string]*[3]int64{}
